@@ -6,6 +6,22 @@ use ed25519_dalek::{Signature, SigningKey, VerifyingKey};
 use serde::{de::DeserializeOwned, Serialize};
 use x25519_dalek::{PublicKey, StaticSecret};
 
+/// encoding of a decoded point, with a marker byte appended when its internal representation is inconsistent
+fn checked_ed(x: &EdwardsPoint) -> Vec<u8> {
+    let mut v = x.compress().to_bytes().to_vec();
+    if !verif::edwards_is_valid(x) {
+        v.push(0xee);
+    }
+    v
+}
+fn checked_rs(x: &RistrettoPoint) -> Vec<u8> {
+    let mut v = x.compress().to_bytes().to_vec();
+    if !verif::edwards_is_valid(&verif::ristretto_inner(x)) {
+        v.push(0xee);
+    }
+    v
+}
+
 fn ser_both<T: Serialize>(v: &T) -> Out {
     let b = bincode::serialize(v).expect("bincode serialize");
     let j = serde_json::to_vec(v).expect("json serialize");
@@ -49,7 +65,7 @@ macro_rules! with_type {
             }
             "edwards" => {
                 let a: [u8; 32] = b.try_into().unwrap_or_else(|_| panic!("ARG: len"));
-                CompressedEdwardsY(a).decompress().map(|v| $f(&v, |x: &EdwardsPoint| x.compress().to_bytes().to_vec(), $($extra),*))
+                CompressedEdwardsY(a).decompress().map(|v| $f(&v, |x: &EdwardsPoint| checked_ed(x), $($extra),*))
             }
             "cedwards" => {
                 let a: [u8; 32] = b.try_into().unwrap_or_else(|_| panic!("ARG: len"));
@@ -57,7 +73,7 @@ macro_rules! with_type {
             }
             "ristretto" => {
                 let a: [u8; 32] = b.try_into().unwrap_or_else(|_| panic!("ARG: len"));
-                CompressedRistretto(a).decompress().map(|v| $f(&v, |x: &RistrettoPoint| x.compress().to_bytes().to_vec(), $($extra),*))
+                CompressedRistretto(a).decompress().map(|v| $f(&v, |x: &RistrettoPoint| checked_rs(x), $($extra),*))
             }
             "cristretto" => {
                 let a: [u8; 32] = b.try_into().unwrap_or_else(|_| panic!("ARG: len"));
@@ -160,9 +176,9 @@ pub fn register(m: &mut HashMap<&'static str, OpFn>) {
         let p = a.bytes(2);
         match ty {
             "scalar" => de_only::<Scalar>(fmt, &p, |x| x.to_bytes().to_vec()),
-            "edwards" => de_only::<EdwardsPoint>(fmt, &p, |x| x.compress().to_bytes().to_vec()),
+            "edwards" => de_only::<EdwardsPoint>(fmt, &p, |x| checked_ed(x)),
             "cedwards" => de_only::<CompressedEdwardsY>(fmt, &p, |x| x.to_bytes().to_vec()),
-            "ristretto" => de_only::<RistrettoPoint>(fmt, &p, |x| x.compress().to_bytes().to_vec()),
+            "ristretto" => de_only::<RistrettoPoint>(fmt, &p, |x| checked_rs(x)),
             "cristretto" => de_only::<CompressedRistretto>(fmt, &p, |x| x.to_bytes().to_vec()),
             "montgomery" => de_only::<MontgomeryPoint>(fmt, &p, |x| x.to_bytes().to_vec()),
             "signingkey" => de_only::<SigningKey>(fmt, &p, |x| x.to_keypair_bytes().to_vec()),
